@@ -90,7 +90,7 @@ func seasonWeather(start time.Time, n int) []proj.Day {
 	for i := range out {
 		t := start.AddDate(0, 0, i)
 		doy := float64(t.YearDay())
-		q := func(v float64) float64 { return math.Round(v*8) / 8 }
+		q := func(v float64) float64 { return math.Round(v*8)/8 + 0 } // (+0 turns a negative zero into zero)
 		tavg := q(9.5 + 10*math.Sin(2*math.Pi*(doy-110)/365))
 		d := proj.Day{Tavg: tavg, Tmin: tavg - 4, Tmax: tavg + 4, RH: 70, Wind: 2.5,
 			Rad: q(11 + 9*math.Sin(2*math.Pi*(doy-80)/365)), Sun: q(6 + 4*math.Sin(2*math.Pi*(doy-80)/365)), ET0: 2}
@@ -172,27 +172,16 @@ func c18Alt(v, lo, hi float64, n int) []float64 {
 	return out
 }
 
-func c18Run(raw json.RawMessage, c *mc.Ctx) {
-	sp := mc.Decode[c18Spec](raw)
-	yml := sp.Format == "yml"
-	paramDir := filepath.Join(proj.RepoDir(), "examples", "parameter")
-	cp, err := hermes.ReadCropParamFromFile(filepath.Join(paramDir, sp.File+".yml"))
-	if err != nil {
-		mc.HarnessError("read %s: %v", sp.File, err)
-	}
-	classic, err := os.ReadFile(filepath.Join(paramDir, sp.File))
-	if err != nil {
-		mc.HarnessError("read %s: %v", sp.File, err)
-	}
-	lines := strings.Split(strings.ReplaceAll(string(classic), "\r\n", "\n"), "\n")
+// c18BuildCases enumerates the override cases of one parameter group of a crop file.
+// ok=false: the group does not exist in this file (stage beyond the file's stages).
+func c18BuildCases(cp hermes.CropParam, group string, values int) (cases []c18Case, ok bool) {
 	S, K := cp.NRENTW, cp.NRKOM
 	stageLine := func(s, k int) int { return 19 + (s-1)*13 + k } // k: 0 headline, 1 TSUM ... 9 WGMAX, 10 PRO, 11 DEAD, 12 kc
-	var cases []c18Case
 	add := func(name string, v float64, apply func(cp *hermes.CropParam, v float64), line, col, width int, text string) {
 		cases = append(cases, c18Case{name: name, args: []string{name + "=" + c18Fmt(v)}, apply: func(cp *hermes.CropParam) { apply(cp, v) }, line: line, col: col, width: width, text: text})
 	}
 	switch {
-	case sp.Group == "base":
+	case group == "base":
 		type bp struct {
 			name   string
 			v      float64
@@ -209,7 +198,7 @@ func c18Run(raw json.RawMessage, c *mc.Ctx) {
 			{"INITCONCNBIOM", cp.INITCONCNBIOM, 0, 100, func(cp *hermes.CropParam, v float64) { cp.INITCONCNBIOM = v }, 11},
 			{"INITCONCNROOT", cp.INITCONCNROOT, 0, 100, func(cp *hermes.CropParam, v float64) { cp.INITCONCNROOT = v }, 12},
 		} {
-			for _, v := range c18Alt(b.v, b.lo, b.hi, sp.Values) {
+			for _, v := range c18Alt(b.v, b.lo, b.hi, values) {
 				col, txt := 65, c18Fmt(v)
 				if b.name == "YIFAK" {
 					col, txt = 66, strings.TrimPrefix(c18Fmt(v), "0")
@@ -217,11 +206,10 @@ func c18Run(raw json.RawMessage, c *mc.Ctx) {
 				add("c_"+b.name, v, b.set, b.line, col, 0, txt)
 			}
 		}
-	case strings.HasPrefix(sp.Group, "stage:"):
-		s, _ := strconv.Atoi(sp.Group[6:])
+	case strings.HasPrefix(group, "stage:"):
+		s, _ := strconv.Atoi(group[6:])
 		if s > S {
-			c.Outcome("stage beyond the file's stages")
-			return
+			return nil, false
 		}
 		st := cp.CropDevelopmentStages[s-1]
 		type spm struct {
@@ -244,23 +232,22 @@ func c18Run(raw json.RawMessage, c *mc.Ctx) {
 			{"KC", st.Kc, 0, 3, func(st *hermes.CropDevelopmentStage, v float64) { st.Kc = v }, 12},
 		} {
 			q := q
-			for _, v := range c18Alt(q.v, q.lo, q.hi, sp.Values) {
+			for _, v := range c18Alt(q.v, q.lo, q.hi, values) {
 				add(fmt.Sprintf("c_%s_%d", q.name, s), v, func(cp *hermes.CropParam, v float64) { q.set(&cp.CropDevelopmentStages[s-1], v) }, stageLine(s, q.k), 65, 0, c18Fmt(v))
 			}
 		}
-	case strings.HasPrefix(sp.Group, "part:"):
-		s, _ := strconv.Atoi(sp.Group[5:])
+	case strings.HasPrefix(group, "part:"):
+		s, _ := strconv.Atoi(group[5:])
 		if s > S {
-			c.Outcome("stage beyond the file's stages")
-			return
+			return nil, false
 		}
 		for o := 1; o <= K; o++ {
 			o := o
 			st := cp.CropDevelopmentStages[s-1]
-			for _, v := range c18Alt(st.PRO[o-1], 0, 1, sp.Values) {
+			for _, v := range c18Alt(st.PRO[o-1], 0, 1, values) {
 				add(fmt.Sprintf("c_PRO_%d_%d", s, o), v, func(cp *hermes.CropParam, v float64) { cp.CropDevelopmentStages[s-1].PRO[o-1] = v }, stageLine(s, 10), 25+8*o, 5, fmt.Sprintf("%5s", c18Fmt(v)))
 			}
-			for _, v := range c18Alt(st.DEAD[o-1], 0, 1, sp.Values) {
+			for _, v := range c18Alt(st.DEAD[o-1], 0, 1, values) {
 				add(fmt.Sprintf("c_DEAD_%d_%d", s, o), v, func(cp *hermes.CropParam, v float64) { cp.CropDevelopmentStages[s-1].DEAD[o-1] = v }, stageLine(s, 11), 25+8*o, 5, fmt.Sprintf("%5s", c18Fmt(v)))
 			}
 		}
@@ -284,6 +271,28 @@ func c18Run(raw json.RawMessage, c *mc.Ctx) {
 					line:  -1})
 			}
 		}
+	}
+	return cases, true
+}
+
+func c18Run(raw json.RawMessage, c *mc.Ctx) {
+	sp := mc.Decode[c18Spec](raw)
+	yml := sp.Format == "yml"
+	paramDir := filepath.Join(proj.RepoDir(), "examples", "parameter")
+	cp, err := hermes.ReadCropParamFromFile(filepath.Join(paramDir, sp.File+".yml"))
+	if err != nil {
+		mc.HarnessError("read %s: %v", sp.File, err)
+	}
+	classic, err := os.ReadFile(filepath.Join(paramDir, sp.File))
+	if err != nil {
+		mc.HarnessError("read %s: %v", sp.File, err)
+	}
+	lines := strings.Split(strings.ReplaceAll(string(classic), "\r\n", "\n"), "\n")
+	S, K := cp.NRENTW, cp.NRKOM
+	cases, ok := c18BuildCases(cp, sp.Group, sp.Values)
+	if !ok {
+		c.Outcome("stage beyond the file's stages")
+		return
 	}
 	root := scratchRoot()
 	defer os.RemoveAll(root)
